@@ -15,6 +15,7 @@ def run(tier, seed):
     wiring.class_compile_obligations(rep, tier)
     wiring.operator_node_classes(rep, tier)
     wiring.metadata_obligations(rep, tier)
+    wiring.pickle_lookup_obligations(rep, tier)
     if tier == 'thorough':
         bad, tried, bound = rt_objects.bounded_values()
         rep.bounded.append({'unit': 'value laws (==, hash, _asdict, _replace, deepcopy, pickle, repr)', 'bound': bound, 'tried': tried, 'violations': len(bad)})
